@@ -9,3 +9,4 @@ CONSTANTS
   MaxVals = 2
   Tbc = TRUE
   ViewHist = 0
+  EmitAll = FALSE
